@@ -44,6 +44,7 @@ func init() {
 	RegisterSpec(&Spec{
 		ID: "C11", Title: "Operators obey the documented value algebra on every operand pair",
 		Rules: []RuleRef{
+			{"valtab", "A9", 1, "index errors are reported by the operator, never by the Go runtime"},
 			{"valtab", "A1", 900, "every (operator, opcode, kind, kind) cell has exactly the documented cases: result kind, Go primitive applied, int->float promotion, error class; index bounds are exactly 0<=i<=j<=len / 0<=i<len"},
 			{"valtab", "A2", 1, "an integer / or % is never executed with a divisor that may be zero"},
 			{"valtab", "A3", 60, "== takes the same cases for (x,y) and (y,x); != is its negation on every cell"},
@@ -120,6 +121,7 @@ func init() {
 	RegisterSpec(&Spec{
 		ID: "C03", Title: "Functions are pure: same arguments, same result, whatever happened before",
 		Rules: []RuleRef{
+			{"valtab", "A10", 1, "array values are never written in place: a result cannot change because an earlier result sharing its storage was extended"},
 			{"vmshape", "O1", 1, "array construction builds new values"},
 			{"valtab", "A1", 900, "a result never shares storage with an operand or an earlier result (array + clones)"},
 			{"vmshape", "O7", 2, "only MOV and INC write variables, locals through Set"},
@@ -143,6 +145,7 @@ func init() {
 	RegisterSpec(&Spec{
 		ID: "C10", Title: "Values are immutable: operations never alter operands or program constants",
 		Rules: []RuleRef{
+			{"valtab", "A10", 1, "no function of the module stores into, appends onto, copies into or clears the backing array of an array value"},
 			{"own", "O8", 20, "memory.Top hands out the frame itself"},
 			{"vmshape", "V7", 6, "function values capture a frame value of their own, not a shared header"},
 			{"vmshape", "V12", 2, "a string returned by read() is a value of its own (ReadString copies out of the reader's buffer)"},
@@ -249,6 +252,7 @@ func init() {
 	RegisterSpec(&Spec{
 		ID: "C01", Title: "Compiled execution matches the definitional semantics of the language",
 		Rules: []RuleRef{
+			{"valtab", "A10", 1, "arrays are immutable values"},
 			{"grammar", "G8", 13, "the tree that is compiled is the program as written (no rewriting while parsing)"},
 			{"pipeline", "P2", 4, "every statement of the input is rewritten, compiled and run"},
 			{"vmshape", "V19", 2, "aton is the documented conversion"},
@@ -319,6 +323,8 @@ func init() {
 	RegisterSpec(&Spec{
 		ID: "C05", Title: "No accepted program can crash the interpreter; failures are calc runtime errors",
 		Rules: []RuleRef{
+			{"vmshape", "V20", 1, "no handler indexes or slices an operand's text or payload without a guard on the same path (implicit bounds aborts)"},
+			{"valtab", "A9", 1, "no operator method indexes or slices a payload without a guard on the same path"},
 			{"own", "O6", 2, "memory.Reset empties the frame and closure stacks: stale frames after an error make the next fork slice out of range"},
 			{"vmshape", "V19", 2, "aton hands its argument text to the library conversions unedited (no indexing into a possibly empty string)"},
 			{"grammar", "G7", 1, "the parser refuses a for loop whose variable and iterator counts differ (the compiler aborts on one)"},
@@ -427,6 +433,7 @@ func init() {
 	RegisterSpec(&Spec{
 		ID: "C17", Title: "Built-in functions keep their contracts for every argument",
 		Rules: []RuleRef{
+			{"vmshape", "V20", 1, "builtin handlers do not index into their argument unguarded"},
 			{"vmshape", "V19", 2, "aton reads a decimal integer, else a float, from exactly its argument text"},
 			{"valtab", "A1", 900, "aton / toa and the operators the builtins use follow the documented table"},
 			{"vmshape", "V12", 2, "read takes whole lines from one buffered reader that outlives the instruction"},
